@@ -21,6 +21,14 @@ func VerifRoot() string {
 	return filepath.Clean(filepath.Join(filepath.Dir(file), "..", "..", ".."))
 }
 
+// EvidenceDir is /verif/evidence unless VERIF_EVIDENCE_DIR redirects it (trial runs on scratch copies).
+func EvidenceDir() string {
+	if d := os.Getenv("VERIF_EVIDENCE_DIR"); d != "" {
+		return d
+	}
+	return filepath.Join(VerifRoot(), "evidence")
+}
+
 func Tier() string {
 	if t := os.Getenv("VERIF_TIER"); t == "thorough" {
 		return "thorough"
@@ -147,7 +155,7 @@ func (e *Evidence) Violation(key, what string, replay any) {
 		}
 	}
 	e.viol = append(e.viol, key)
-	dir := filepath.Join(VerifRoot(), "evidence", "replay")
+	dir := filepath.Join(EvidenceDir(), "replay")
 	_ = os.MkdirAll(dir, 0o755)
 	safe := strings.Map(func(r rune) rune {
 		if r >= 'a' && r <= 'z' || r >= 'A' && r <= 'Z' || r >= '0' && r <= '9' || r == '-' || r == '_' || r == '.' {
@@ -200,7 +208,7 @@ func (e *Evidence) Write() int {
 	if len(e.inconcl) > 0 {
 		e.Coverage["inconclusive"] = e.inconcl
 	}
-	dir := filepath.Join(VerifRoot(), "evidence")
+	dir := EvidenceDir()
 	_ = os.MkdirAll(dir, 0o755)
 	b, _ := json.MarshalIndent(e, "", " ")
 	_ = os.WriteFile(filepath.Join(dir, e.PropertyID+".json"), append(b, '\n'), 0o644)
